@@ -4,7 +4,8 @@ return of every function that exchanges them, and are message-private while user
 from vlib.flow import Explorer, Tracer, chain_calls
 from vlib.mir import callee_name, op_local, op_place, strip_generics
 
-EXCHANGE = ("std::mem::take", "std::mem::replace", "std::mem::swap")
+EXCHANGE = ("std::mem::take", "std::mem::replace", "std::mem::swap", "std::cell::RefCell::take", "std::cell::RefCell::replace", "std::cell::RefCell::swap")
+_CANON = {"std::cell::RefCell::take": "std::mem::take", "std::cell::RefCell::replace": "std::mem::replace", "std::cell::RefCell::swap": "std::mem::swap"}
 USER_CODE = ("bincode::serialize_into", "bincode::serialize", "bincode::deserialize", "bincode::deserialize_from",
              "bincode::serialized_size", "serde::Serialize::serialize", "serde::Deserialize::deserialize")
 SIDE_ELEMS = ("OsIpcChannel", "OsIpcSharedMemory", "OsOpaqueIpcChannel")
@@ -16,7 +17,7 @@ def side_table_exchange(t):
         return None
     g = " ".join(t.get("generics", []))
     if "Vec<" in g and any(e in g for e in SIDE_ELEMS):
-        return name
+        return _CANON.get(name, name)
     return None
 
 
@@ -27,6 +28,9 @@ def cell_key(fn, tr, operand):
         return None, False
     r = next(iter(roots))
     is_table = "std::cell::RefCell::borrow_mut" in chain_calls(fn, operand)
+    l = op_local(operand)
+    if l is not None and "RefCell<" in fn.local_ty(l):
+        is_table = True      # RefCell::take / replace / swap operate on the table cell itself
     return (r.kind, r.id, r.field_idx()), is_table
 
 
@@ -45,7 +49,7 @@ def rule_tls_restore(ctx, cfg, F):
         ex = Explorer(f)
         tables = {}
         for b, t in sites:
-            for a in t["args"][:2 if strip_generics(callee_name(t)) == "std::mem::swap" else 1]:
+            for a in t["args"][:2 if side_table_exchange(t) == "std::mem::swap" else 1]:
                 k, is_t = cell_key(f, tr, a)
                 if k and is_t:
                     tables[k] = True
